@@ -123,13 +123,27 @@ def w_twice(arg):
     rules = hooks.pipeline_rules()
     rf = hooks.rule_functions()
     res = {"pairs": 0, "fired": 0, "cache_checks": 0, "violations": [], "nontrivial": [], "first_results": [], "rules_fired": {}}
+    import os
+    import sys
+    import tempfile
+
+    junk = []
+    home = os.getcwd()
     for case in arg["cases"]:
         text = case["text"]
         try:
             ast.parse(text)
         except (SyntaxError, ValueError):
             continue
-        for key in rules:
+        world = None
+        if case.get("world"):  # sibling modules that the imports of the text resolve to
+            world = tempfile.mkdtemp(prefix="c05-world-")
+            for name, content in case["world"].items():
+                with open(os.path.join(world, name), "w") as f:
+                    f.write(content)
+            os.chdir(world)
+            sys.path.insert(0, world)
+        for key in (rules if not case.get("only_rules") else [k for k in rules if f"{k[0]}.{k[1]}" in case["only_rules"]]):
             fn = rf[key]
             qual = f"{key[0]}.{key[1]}"
             R.reset()
@@ -154,10 +168,30 @@ def w_twice(arg):
             if a != b:
                 res["violations"].append({"kind": "second_call_differs_from_first", "rule": qual, "input": text,
                                           "detail": {"first": _short(a), "second": _short(b)}, "replay": replay})
+            elif a.get("out") is not None and a["out"] != text:
+                # ... and again once the parsed program has been evicted from the cache and the heap has moved (sets of syntax nodes iterate in another order)
+                for k in range(case.get("again", 1)):
+                    junk.append([object() for _ in range(991 * (k + 1))])
+                    m["core"].parse.cache_clear()
+                    c = do_call(m, {"kind": "rule", "rule": list(key), "text": text})
+                    res["pairs"] += 1
+                    if c != a:
+                        res["violations"].append({"kind": "call_after_cache_eviction_differs", "rule": qual, "input": text,
+                                                  "detail": {"first": _short(a), "later": _short(c), "after_evictions": k + 1}, "replay": replay})
+                        break
             for ev in R.cache:
                 if len(res["violations"]) < 60:
                     res["violations"].append({"kind": "cache_not_faithful_to_its_source", "rule": qual, "input": ev["source"],
                                               "detail": {"cache": ev["fn"], "handed_out_while_running": ev["stack"][-2:]}, "replay": replay})
+        if world:
+            import shutil
+
+            os.chdir(home)
+            sys.path.remove(world)
+            shutil.rmtree(world, ignore_errors=True)
+            for fn_ in (getattr(m.get("tracing"), "trace_origin", None), getattr(m.get("tracing"), "_trace_module_source_file", None)):
+                if hasattr(fn_, "cache_clear"):
+                    fn_.cache_clear()
     return res
 
 
@@ -167,6 +201,13 @@ def _short(r):
 
 def _brief(call):
     return {k: (v[:80] if isinstance(v, str) else v) for k, v in call.items()}
+
+
+WORLD_TIES = [
+    ("from c import x as bbb, x as aaa, x as ccc, x as ddd\nprint(aaa, bbb, ccc, ddd)\n", {"c.py": "from d import x\n", "d.py": "x = 1\n"}),
+    ("from c import y as q, x as p, y as a, x as b\nprint(a, b, p, q)\n", {"c.py": "from d import x, y\n", "d.py": "x = 1\ny = 2\n"}),
+    ("from c import *\nfrom e import *\nprint(x, y, z, w)\n", {"c.py": "x = 1\ny = 2\n", "e.py": "z = 3\nw = 4\n"}),
+]
 
 
 # --------------------------------------------------------------------------------- parent side
@@ -206,7 +247,7 @@ def main() -> int:
     import textwrap
 
     from ..gen import programs
-    from . import c09, c20
+    from . import c06, c09, c20
 
     # idiom programs (one per family) and the hand-written antagonists of C09 / C20: rules that pass nodes of the parsed source on to templates, renamers, movers
     idiom_texts = [programs.program((env.seed(), "C05", name, k), n_idioms=1, only=name)[0] for name in programs.IDIOMS for k in range(3 if thorough else 1)]
@@ -236,6 +277,10 @@ def main() -> int:
         verdict.run_witnesses(v, p)
         # (1) rules twice in a row
         tcases = [{"id": i, "text": t, "sample_for_fresh": i % 6 == 0} for i, t in enumerate(texts)]
+        tcases += [{"id": f"tie{i}", "text": t, "again": 6} for i, t in enumerate(c06.TIES)]
+        tcases += [{"id": f"squeezed{i}", "text": t2, "again": 2} for i, t2 in enumerate(x for x in (c06.same_line(t) for t in texts[:120 if thorough else 50]) if x)]
+        tcases += [{"id": f"world{i}", "text": t, "world": w, "again": 8, "only_rules": ["tracing.fix_reimported_names", "tracing.fix_starred_imports", "fixes.fix_duplicate_imports", "fixes.sort_imports"]}
+                   for i, (t, w) in enumerate(WORLD_TIES)]
         reps = p.map("harness.checks.c05:w_twice", [{"cases": tcases[i:i + 3]} for i in range(0, len(tcases), 3)], cpu_s=900)
         verdict.pool_failures(v, reps, "C05 twice")
         for rep in reps:
